@@ -857,6 +857,15 @@ def g_er(rng):
                 batch=rng.choice([None, 1, 1, 2, 3, max(n, 1), n + 1]), batch2=rng.choice([1, 2, 3, 100]),
                 per_utt=rng.random() < 0.35, distances=rng.random() < 0.3, warn=bool(missing) and rng.random() < 0.7,
                 costs=rng.choice(COSTS), layout=rng.choice(["two", "two", "parent"]), strays=g_strays(rng, pre, suf))
+    if mode == "int" and rng.random() < 0.5:
+        # stored ids are arbitrary integers: negative ones (-1, -2, ...) and large ones are ordinary tokens
+        sh = rng.choice([1, 2, 3, -1000])
+        f = lambda x: x - sh  # noqa: E731
+        case["ref"] = {u: [f(x) for x in v] for u, v in ref.items()}
+        case["hyp"] = {u: [f(x) for x in v] for u, v in hyp.items()}
+        case["rep"] = [[f(a), f(b)] for a, b in rep]
+        case["ign"] = [f(x) for x in ign]
+        case["shift"] = sh
     return case
 
 
@@ -926,7 +935,8 @@ def x_er(chk, sc, case):
         with open(os.path.join(root, "ign"), "w") as f:
             f.write(" ".join(str(name(x)) for x in case["ign"]) + "\n")
     res, text = _er_run(case, root, case["batch"], "1")
-    cnt = {"er_outcome=" + str(res["exc"]): 1, "er_costs=" + str(case["costs"]): 1}
+    cnt = {"er_outcome=" + str(res["exc"]): 1, "er_costs=" + str(case["costs"]): 1,
+           "er_id_shift=" + str(case.get("shift", 0)): 1}
     terms, meta = [], []
     # the pairing and the filtering, read off the property (for the oracle table and the spec term)
     common = sorted(set(case["ref"]) & set(case["hyp"]))
